@@ -348,15 +348,18 @@ theorem factory_default_equiv :
         = .ok (.field (.anyOf [.integer {}, .noneF]) false (some factoryTag)) :=
   ⟨⟨rfl, SameMeaning.scalar .cls .inst .int, rfl, rfl⟩, rfl, rfl, rfl, rfl, rfl, rfl, rfl⟩
 
-/-- finding `default-factory-differs:default-factory-once` — with a builtin CLASS annotation (`a: int = f`,
-    `a: list = f`, `a: Any = f`) the factory is called at class definition and its (truthy) product becomes the
-    shared default of all instances, whereas `a: Integer = f` keeps the factory. -/
-theorem counterexample_factory_once :
+/-- former finding `default-factory-differs:default-factory-once` (fixed in typedpy d1c0173): with a builtin
+    CLASS annotation (`a: int = f`, `a: list = f`, `a: Any = f`) the factory used to be called at class
+    definition and its product became the shared default; it is now kept, as for `a: Integer = f`. -/
+theorem fixed_factory_builtin_class :
     FieldSame (annF (.builtin .int) (.eqF (.int 100) 9)) (annF fInt (.eqF (.int 100) 9))
-    ∧ elabField noRe tm false (annF (.builtin .int) (.eqF (.int 100) 9)) = .ok (.field (.integer {}) false (some (.int 100)))
+    ∧ fieldSupported noRe tm false (annF (.builtin .int) (.eqF (.int 100) 9)) = true
+    ∧ elabField noRe tm false (annF (.builtin .int) (.eqF (.int 100) 9)) = .ok (.field (.integer {}) false (some factoryTag))
     ∧ elabField noRe tm false (annF fInt (.eqF (.int 100) 9)) = .ok (.field (.integer {}) false (some factoryTag))
-    ∧ fieldSupported noRe tm false (annF (.builtin .int) (.eqF (.int 100) 9)) = false :=
-  ⟨⟨rfl, SameMeaning.scalar .builtin .cls .int, rfl, rfl⟩, rfl, rfl, rfl⟩
+    ∧ elabField noRe tm false (annF (.bareBuiltin .list) (.eqF (.list [.int 1]) 9))
+        = .ok (.field (.seqAny .list {}) false (some factoryTag))
+    ∧ elabField noRe tm false (annF (.builtin .any) (.eqF (.int 100) 9)) = .ok (.field .anything false (some factoryTag)) :=
+  ⟨⟨rfl, SameMeaning.scalar .builtin .cls .int, rfl, rfl⟩, rfl, rfl, rfl, rfl, rfl⟩
 
 /-! ### single-argument tuple forms -/
 
